@@ -265,6 +265,31 @@ var validColumnTypes = map[string]bool{
 // columnTypePattern matches valid column type definitions
 var columnTypePattern = regexp.MustCompile(`^[A-Za-z][A-Za-z0-9_ (),.]*$`)
 
+// columnTypeIsSingleDefinition reports whether a column type, once spliced into
+// "CREATE TABLE t (name <type>, ...)", stays inside its own column definition.
+// The character class of the type patterns admits commas and parentheses for
+// types such as NUMERIC(10, 2); a comma outside parentheses would start another
+// column definition and an unmatched ")" would end the column list.
+func columnTypeIsSingleDefinition(colType string) bool {
+	depth := 0
+	for _, c := range colType {
+		switch c {
+		case '(':
+			depth++
+		case ')':
+			depth--
+			if depth < 0 {
+				return false
+			}
+		case ',':
+			if depth == 0 {
+				return false
+			}
+		}
+	}
+	return depth == 0
+}
+
 // sanitizeColumnType validates a column type definition
 func sanitizeColumnType(colType string) (string, error) {
 	if colType == "" {
@@ -275,7 +300,7 @@ func sanitizeColumnType(colType string) (string, error) {
 	upperType := strings.ToUpper(strings.TrimSpace(colType))
 
 	// Check against pattern to prevent injection
-	if !columnTypePattern.MatchString(colType) {
+	if !columnTypePattern.MatchString(colType) || !columnTypeIsSingleDefinition(colType) {
 		return "", fmt.Errorf("invalid column type: %s", colType)
 	}
 
